@@ -5,6 +5,7 @@
 #include "hx.h"
 #include "gen.h"
 #include "cut.h"
+#include "corpus.h"
 
 typedef struct exch { hx_buf q, r; char name[200]; hx_cfgspec cfg; int nmsg; gx_msg truth[3]; } exch;
 static exch *EX; static int NEX, CAPEX;
@@ -614,6 +615,191 @@ static void mode_tunnel(int argc, char **argv) {
     hx_emit_stat("tunnel_scenarios", hx_shard_i == 0 ? tunnel_counter : 0);
 }
 
+/* ------------------------------------------------------------------ corpus mode (C01) ------- */
+static void corpus_exec(void) {
+    if (hx_run(&S, &O)) return;
+    n_exec++; n_calls += O.ncalls; cx_set_add(&outcomes, hx_fnv(O.cbtrace.p, O.cbtrace.n, 0));
+    hx_report_verdicts(&S, &O, PROPS);
+}
+static void mode_corpus(int argc, char **argv) {
+    int thorough = !strcmp(hx_tier, "thorough");
+    int pairwin = atoi(hx_arg(argc, argv, "--pair-window", thorough ? "24" : "0"));
+    corpus_load(1);
+    hx_cfgspec cfgs[3]; hx_cfgspec_default(&cfgs[0]); cfgs[0].req_decomp = 1;
+    hx_cfgspec_default(&cfgs[1]); cfgs[1].auto_destroy = 1; cfgs[1].personality = HTP_SERVER_APACHE_2;
+    hx_cfgspec_default(&cfgs[2]); cfgs[2].field_limit_hard = 64; cfgs[2].max_tx = 2; cfgs[2].personality = HTP_SERVER_IIS_5_1;
+    long work = 0;
+    static hx_script B;
+    for (int i = 0; i < NCORP; i++) for (int c = 0; c < 3; c++) {
+        if (work++ % hx_shard_n != hx_shard_i) continue;
+        if (hx_deadline_hit()) return;
+        const corp_item *it = &CORP[i];
+        hx_script_init(&B); B.cfg = cfgs[c]; B.label = it->name; corpus_to_script(it, &B, 1);
+        memcpy(&S, &B, sizeof S); corpus_exec();
+        if (i < 2 && c == 0) { char t[200]; snprintf(t, sizeof t, "capture %s: %d chunks, %zu bytes; re-run with every single extra cut, 1/2/3-byte delivery, 3 configurations", it->name, it->nops, it->bytes); hx_emit_sample(t); }
+        /* uniform re-chunking */
+        for (uint32_t ksz = 1; ksz <= 3; ksz++) {
+            if (it->bytes / ksz > HX_MAXOPS - 8) continue;
+            hx_script_init(&S); S.cfg = B.cfg; S.label = B.label;
+            for (int o = 0; o < B.nops; o++) { const hx_op *op = &B.ops[o];
+                if (op->k == OP_Q || op->k == OP_S) for (uint32_t off = 0; off < op->n; off += ksz) hx_script_add(&S, op->k, op->d + off, op->n - off < ksz ? op->n - off : ksz);
+                else hx_script_add(&S, op->k, op->d, op->n); }
+            corpus_exec();
+        }
+        if (it->bytes > 6000) continue;
+        /* every single extra cut (and, thorough, a second cut within a window after it) */
+        for (int o = 0; o < B.nops; o++) {
+            const hx_op *op = &B.ops[o];
+            if (op->k != OP_Q && op->k != OP_S) continue;
+            for (uint32_t cut = 1; cut < op->n; cut++) {
+                for (uint32_t cut2 = 0; cut2 <= (uint32_t) pairwin; cut2++) {
+                    if (cut2 && cut + cut2 >= op->n) break;
+                    hx_script_init(&S); S.cfg = B.cfg; S.label = B.label;
+                    for (int q = 0; q < B.nops; q++) {
+                        if (q != o) { hx_script_add(&S, B.ops[q].k, B.ops[q].d, B.ops[q].n); continue; }
+                        hx_script_add(&S, op->k, op->d, cut);
+                        if (cut2) { hx_script_add(&S, op->k, op->d + cut, cut2); hx_script_add(&S, op->k, op->d + cut + cut2, op->n - cut - cut2); }
+                        else hx_script_add(&S, op->k, op->d + cut, op->n - cut);
+                    }
+                    corpus_exec();
+                }
+                if ((cut & 63) == 0 && hx_deadline_hit()) return;
+            }
+        }
+    }
+}
+
+/* ------------------------------------------------------------------ limits mode (C10) ------- */
+static struct { int expect_len; int kind; char desc[200]; } LT;
+static void limits_inspect(htp_connp_t *c, hx_obs *o, void *ctx) {
+    (void) ctx; (void) o;
+    /* no silent truncation: if the direction did not end in ERROR, the long field is reported whole */
+    htp_tx_t *tx = htp_list_get(c->conn->transactions, 0);
+    if (!tx) return;
+    int dir = LT.kind >= 3;
+    int st = dir ? c->out_status : c->in_status;
+    if (st == HTP_STREAM_ERROR) return;
+    size_t got = 0; int have = 0;
+    if (LT.kind == 0 && tx->request_uri) { got = bstr_len(tx->request_uri); have = 1; }
+    if (LT.kind == 1) { htp_header_t *h = htp_table_get_c(tx->request_headers, "x-long"); if (h) { got = bstr_len(h->value); have = 1; } else if (tx->request_progress > HTP_REQUEST_HEADERS) { have = 1; got = 0; } }
+    if (LT.kind == 3 && tx->response_message) { got = bstr_len(tx->response_message); have = 1; }
+    if (LT.kind == 4 && tx->response_headers) { htp_header_t *h = htp_table_get_c(tx->response_headers, "x-long"); if (h) { got = bstr_len(h->value); have = 1; } else if (tx->response_progress > HTP_RESPONSE_HEADERS) { have = 1; got = 0; } }
+    if (have && (int) got != LT.expect_len) hx_verdict_add("C10", "truncated_field", "%s: field reported with %zu bytes, %d were sent, and the direction did not report ERROR", LT.desc, got, LT.expect_len);
+}
+static long limits_counter;
+static void limits_line_cases(void) {
+    static const uint32_t LIM[] = { 8, 24, 64 };
+    static hx_buf q, r;
+    for (int li = 0; li < 3; li++) for (int kind = 0; kind < 6; kind++) for (int delta = -3; delta <= 4; delta++) {
+        uint32_t L = LIM[li]; int flen = (int) L + delta; if (flen < 1) continue;
+        /* the long field: flen bytes of 'x' placed in a request line / request header / request chunk-size line /
+         * status line / response header / response chunk-size line */
+        hb_reset(&q); hb_reset(&r);
+        size_t lo = 0, hi = 0; hx_buf *w;
+        char fill[128]; memset(fill, 'x', sizeof fill); if (kind == 2 || kind == 5) memset(fill, '0', sizeof fill);
+        if (kind <= 2) {
+            w = &q;
+            if (kind == 0) { hb_puts(&q, "GET /"); lo = q.n; hb_put(&q, fill, (size_t) flen - 1); hb_puts(&q, " HTTP/1.1\r\n"); hi = q.n; hb_puts(&q, "Host: h\r\n\r\n"); }
+            else if (kind == 1) { hb_puts(&q, "GET / HTTP/1.1\r\nHost: h\r\n"); lo = q.n; hb_puts(&q, "X-Long: "); hb_put(&q, fill, (size_t) flen); hb_puts(&q, "\r\n"); hi = q.n; hb_puts(&q, "\r\n"); }
+            else { hb_puts(&q, "POST / HTTP/1.1\r\nHost: h\r\nTransfer-Encoding: chunked\r\n\r\n"); lo = q.n; hb_put(&q, fill, (size_t) flen); hb_puts(&q, "3\r\n"); hi = q.n; hb_puts(&q, "abc\r\n0\r\n\r\n"); }
+            hb_puts(&r, "HTTP/1.1 200 OK\r\nContent-Length: 0\r\n\r\n");
+        } else {
+            w = &r; hb_puts(&q, "GET / HTTP/1.1\r\nHost: h\r\n\r\n");
+            if (kind == 3) { hb_puts(&r, "HTTP/1.1 200 "); lo = r.n; hb_put(&r, fill, (size_t) flen); hb_puts(&r, "\r\n"); hi = r.n; hb_puts(&r, "Content-Length: 0\r\n\r\n"); }
+            else if (kind == 4) { hb_puts(&r, "HTTP/1.1 200 OK\r\n"); lo = r.n; hb_puts(&r, "X-Long: "); hb_put(&r, fill, (size_t) flen); hb_puts(&r, "\r\n"); hi = r.n; hb_puts(&r, "Content-Length: 0\r\n\r\n"); }
+            else { hb_puts(&r, "HTTP/1.1 200 OK\r\nTransfer-Encoding: chunked\r\n\r\n"); lo = r.n; hb_put(&r, fill, (size_t) flen); hb_puts(&r, "3\r\n"); hi = r.n; hb_puts(&r, "abc\r\n0\r\n\r\n"); }
+        }
+        (void) w;
+        LT.kind = kind; LT.expect_len = kind == 0 ? flen : flen;
+        snprintf(LT.desc, sizeof LT.desc, "field_limit_hard=%u, %d-byte field in %s", L, flen, kind == 0 ? "request line" : kind == 1 ? "request header" : kind == 2 ? "request chunk-size line" : kind == 3 ? "status line" : kind == 4 ? "response header" : "response chunk-size line");
+        long id = limits_counter++;
+        if (id % hx_shard_n != hx_shard_i) continue;
+        if (id % 40 == 0) hx_emit_sample(LT.desc);
+        hx_script_init(&S); S.cfg.field_limit_hard = L; S.inspect = limits_inspect; S.label = LT.desc;
+        size_t base = kind <= 2 ? 0 : q.n;
+        /* every single cut and every pair of cuts inside the long line, plus byte-by-byte delivery */
+        for (size_t a = lo; a <= hi; a++) for (size_t b = a; b <= hi; b++) {
+            int cuts[2], nc = 0;
+            if (a > 0) cuts[nc++] = (int) (base + a);
+            if (b > a) cuts[nc++] = (int) (base + b);
+            if (nc == 0) continue;
+            cx_build(&S, q.p, q.n, r.p, r.n, cuts, nc, 1);
+            if (hx_run(&S, &O)) continue;
+            n_exec++; n_calls += O.ncalls; cx_set_add(&outcomes, hx_fnv(O.cbtrace.p, O.cbtrace.n, (uint64_t) O.final_in_status * 16 + (uint64_t) O.final_out_status));
+            hx_report_verdicts(&S, &O, PROPS);
+        }
+        cx_build_uniform(&S, q.p, q.n, r.p, r.n, 1, 1);
+        if (!hx_run(&S, &O)) { n_exec++; n_calls += O.ncalls; hx_report_verdicts(&S, &O, PROPS); }
+    }
+}
+static void limits_pumps(void) {
+    static hx_buf q, r;
+    /* folded header grown beyond HTP_MAX_HEADER_FOLDED in 1 KiB continuation lines, both directions, two chunkings */
+    for (int dir = 0; dir < 2; dir++) for (int chunking = 0; chunking < 2; chunking++) {
+        long id = limits_counter++; if (id % hx_shard_n != hx_shard_i) continue;
+        hb_reset(&q); hb_reset(&r);
+        hx_buf *w = dir ? &r : &q;
+        hb_puts(&q, "GET / HTTP/1.1\r\nHost: h\r\n"); if (dir) hb_puts(&q, "\r\n");
+        hb_puts(&r, "HTTP/1.1 200 OK\r\n"); if (!dir) hb_puts(&r, "Content-Length: 0\r\n\r\n");
+        hb_puts(w, "X-Fold: start\r\n");
+        char line[1100]; memset(line, 'f', sizeof line); line[0] = ' '; line[1022] = '\r'; line[1023] = '\n';
+        for (int i = 0; i < 130; i++) hb_put(w, line, 1024);
+        hb_puts(w, dir ? "Content-Length: 0\r\n\r\n" : "\r\n");
+        hx_script_init(&S); S.label = dir ? "folded response header pump 130 KiB" : "folded request header pump 130 KiB";
+        if (chunking == 0) cx_build(&S, q.p, q.n, r.p, r.n, NULL, 0, 1); else cx_build_uniform(&S, q.p, q.n, r.p, r.n, 1500, 1);
+        if (!hx_run(&S, &O)) { n_exec++; n_calls += O.ncalls; hx_report_verdicts(&S, &O, PROPS); }
+    }
+    /* 70 / 200 repetitions of one header name */
+    for (int dir = 0; dir < 2; dir++) for (int reps = 70; reps <= 200; reps += 130) {
+        long id = limits_counter++; if (id % hx_shard_n != hx_shard_i) continue;
+        hb_reset(&q); hb_reset(&r);
+        hx_buf *w = dir ? &r : &q;
+        hb_puts(&q, "GET / HTTP/1.1\r\nHost: h\r\n"); if (dir) hb_puts(&q, "\r\n");
+        hb_puts(&r, "HTTP/1.1 200 OK\r\n"); if (!dir) hb_puts(&r, "Content-Length: 0\r\n\r\n");
+        for (int i = 0; i < reps; i++) hb_puts(w, "X-Rep: v\r\n");
+        hb_puts(w, dir ? "Content-Length: 0\r\n\r\n" : "\r\n");
+        hx_script_init(&S); S.label = "repeated header name pump";
+        cx_build(&S, q.p, q.n, r.p, r.n, NULL, 0, 1);
+        if (!hx_run(&S, &O)) { n_exec++; n_calls += O.ncalls; hx_report_verdicts(&S, &O, PROPS); }
+    }
+    /* max_tx: pipelined requests without responses, and unmatched responses */
+    for (uint32_t mt = 1; mt <= 5; mt += (mt == 1 ? 1 : 3)) for (int kind = 0; kind < 2; kind++) for (int chunked = 0; chunked < 2; chunked++) {
+        long id = limits_counter++; if (id % hx_shard_n != hx_shard_i) continue;
+        hb_reset(&q); hb_reset(&r);
+        for (uint32_t i = 0; i < mt + 4; i++) { if (kind == 0) hb_printf(&q, "GET /%u HTTP/1.1\r\nHost: h\r\n\r\n", i); else hb_printf(&r, "HTTP/1.1 200 OK\r\nContent-Length: 1\r\n\r\n%u", i % 10); }
+        hx_script_init(&S); S.cfg.max_tx = mt; S.label = kind ? "unmatched responses vs max_tx" : "pipelined requests vs max_tx";
+        if (chunked) cx_build_uniform(&S, q.p, q.n, r.p, r.n, 7, 1); else cx_build(&S, q.p, q.n, r.p, r.n, NULL, 0, 1);
+        if (!hx_run(&S, &O)) { n_exec++; n_calls += O.ncalls; hx_report_verdicts(&S, &O, PROPS); }
+    }
+}
+/* steady state: N repetitions of one exchange with auto-destroy, logging off and htp_connp_tx_freed() after every
+ * completion; live heap bytes at every TRANSACTION_COMPLETE must be exactly constant from the 4th transaction on */
+static void steady_visit(const int *qs, const int *ss, void *ctx) {
+    int N = *(int *) ctx;
+    long id = limits_counter++; if (id % hx_shard_n != hx_shard_i || hx_deadline_hit()) return;
+    static gx_msg truth; static hx_buf q, r;
+    hb_reset(&q); hb_reset(&r);
+    gx_build(qs, ss, 1, 0, &truth, &q, &r);
+    hx_script_init(&S); S.cfg.auto_destroy = 1; S.cfg.log_level = HTP_LOG_NONE; S.light = 1; S.repeat = N;
+    static char lab[120]; hx_buf d = { 0 }; gx_describe(&d, qs, ss); hb_term(&d); snprintf(lab, sizeof lab, "steady state x%d of gen %s", N, (char *) d.p); hb_free(&d); S.label = lab;
+    hx_script_add(&S, OP_Q, q.p, (uint32_t) q.n); hx_script_add(&S, OP_S, r.p, (uint32_t) r.n); hx_script_add(&S, OP_FREED, NULL, 0);
+    if (hx_run(&S, &O)) return;
+    n_exec++; n_calls += O.ncalls;
+    cx_set_add(&outcomes, (uint64_t) O.steady[3] * 1315423911u + (uint64_t) id);
+    if (O.steady_n_total < N) { char m[300]; snprintf(m, sizeof m, "%s: only %d of %d transactions completed (statuses %d/%d)", lab, O.steady_n_total, N, O.final_in_status, O.final_out_status); hx_emit_script_violation("C10", "steady_incomplete", m, &S, &O); }
+    else if (O.steady_growth_at) { char m[300]; snprintf(m, sizeof m, "%s: live heap at TRANSACTION_COMPLETE is %lld bytes after transaction 4 but differs at transaction %d (last: %lld bytes)", lab, (long long) O.steady[3], O.steady_growth_at, (long long) O.steady_last); hx_emit_script_violation("C10", "steady_growth", m, &S, &O); }
+    hx_report_verdicts(&S, &O, PROPS);
+    if (id % 20 == 0) hx_emit_sample(lab);
+}
+static void mode_limits(int argc, char **argv) {
+    int thorough = !strcmp(hx_tier, "thorough");
+    int N = atoi(hx_arg(argc, argv, "--steady-n", thorough ? "10000" : "1000"));
+    limits_line_cases();
+    limits_pumps();
+    gx_enum_deviations(1, steady_visit, &N);
+    hx_emit_stat("limit_cases", hx_shard_i == 0 ? limits_counter : 0);
+}
+
 static int worker(int argc, char **argv) {
     PROPS = hx_arg(argc, argv, "--props", "C03");
     const char *mode = hx_arg(argc, argv, "--mode", "seg");
@@ -622,6 +808,8 @@ static int worker(int argc, char **argv) {
     else if (!strcmp(mode, "body")) mode_body(argc, argv);
     else if (!strcmp(mode, "pair")) mode_pair(argc, argv);
     else if (!strcmp(mode, "tunnel")) mode_tunnel(argc, argv);
+    else if (!strcmp(mode, "corpus")) mode_corpus(argc, argv);
+    else if (!strcmp(mode, "limits")) mode_limits(argc, argv);
     else { fprintf(stderr, "cutmc: unknown mode %s\n", mode); return 2; }
     hx_emit_stat("executions", n_exec); hx_emit_stat("calls", n_calls); hx_emit_stat("distinct_outcomes", (long long) outcomes.cnt);
     return 0;
